@@ -51,6 +51,7 @@ var pieces = []string{
 	"/* ' */",   // 13 a quote character inside a comment
 	"`c'`",      // 14 a quote character inside a quoted identifier
 	"'\"?'",     // 15 ? after the other quote character inside a string
+	"'a\\\\'",   // 16 a string ending in an escaped backslash (added after seeded change c14-1 was missed)
 }
 
 var skeletons = [][2]string{
@@ -145,6 +146,7 @@ func contextAt(toks []mylex.Token, sql string, off int) string {
 // character or a '?', or a string containing a backslash-escaped quote. "none" if there is
 // no such token (then the discrepancy has another reason).
 func causeBefore(toks []mylex.Token, off int) string {
+	fallback := "none"
 	for _, t := range toks {
 		if t.Off > off {
 			break
@@ -174,12 +176,36 @@ func causeBefore(toks []mylex.Token, off int) string {
 				return "backquote_qmark"
 			}
 		case mylex.String:
-			if strings.Contains(t.Text, "\\"+string(t.Quote)) {
+			// a backslash-escaped quote INSIDE the literal (not the closing quote after an
+			// escaped backslash: 'a\\\\' ends in an escaped backslash and has none)
+			if hasEscapedQuote(t.Text, t.Quote) {
 				return "string_backslash_quote"
+			}
+			if strings.Contains(t.Text, "\\\\") {
+				// harmless on its own for a scanner that ignores backslashes: lowest priority
+				fallback = "string_escaped_backslash"
 			}
 		}
 	}
-	return "none"
+	return fallback
+}
+
+// hasEscapedQuote scans the body of a string token (text includes the delimiters) pairing
+// each backslash with the character it escapes.
+func hasEscapedQuote(text string, quote byte) bool {
+	if len(text) < 2 {
+		return false
+	}
+	body := text[1 : len(text)-1]
+	for i := 0; i < len(body); i++ {
+		if body[i] == '\\' && i+1 < len(body) {
+			if body[i+1] == quote {
+				return true
+			}
+			i++
+		}
+	}
+	return false
 }
 
 func intsEq(a, b []int) bool {
@@ -362,6 +388,41 @@ func main() {
 	})
 	if done < universe {
 		r.Capped(fmt.Sprintf("%d of %d cases in index order (shortest sequences first)", done, universe))
+	}
+	// second family (added after seeded change c14-1 was missed): longer sequences over the
+	// escape-related sub-alphabet only, so that two literals ending in an escaped backslash can
+	// enclose a parameter ("'a\\\\' , ? , 'a\\\\'" needs 5 pieces)
+	sub := []int{0, 2, 1, 16, 11, 10}
+	subMin, subMax := fullLen+1, fullLen+2
+	subUniverse := 0
+	for l := subMin; l <= subMax; l++ {
+		n := 1
+		for k := 0; k < l; k++ {
+			n *= len(sub)
+		}
+		subUniverse += n
+	}
+	r.Set("escape_family", fmt.Sprintf("every sequence of length %d..%d over pieces %v in the first skeleton x joiner combination (%d cases)", subMin, subMax, sub, subUniverse))
+	doneSub := enum.Parallel(subUniverse, r.TimeUp, func(i int) {
+		l := subMin
+		n := 1
+		for k := 0; k < l; k++ {
+			n *= len(sub)
+		}
+		for i >= n {
+			i -= n
+			l++
+			n *= len(sub)
+		}
+		seq := make([]int, l)
+		for k := l - 1; k >= 0; k-- {
+			seq[k] = sub[i%len(sub)]
+			i /= len(sub)
+		}
+		runCase(r, tcase{Skeleton: 0, Joiner: 0, Seq: seq})
+	})
+	if doneSub < subUniverse {
+		r.Capped(fmt.Sprintf("escape family: %d of %d cases", doneSub, subUniverse))
 	}
 	r.Set("evaluations", nEval)
 	r.Set("parser_rejected", nRejected)
